@@ -125,7 +125,7 @@ def c11(tier):
 
 def c16(tier):
     vlib.standard(
-        "C16", tier, "c16", ["Properties_C16.v", "Proofs_Cli.v", "Properties_System.v", "Proofs_System.v"],
+        "C16", tier, "c16", ["Properties_C16.v", "Proofs_Cli.v", "Properties_System.v", "Proofs_System.v", "Properties_Flags.v"],
         assume=[
             "locations are absolute (begin with '/'): token.Position.String of files loaded by go/packages",
             "CommentGroup.Text() of go/ast is an input of the model (computed by the harness), not modelled",
